@@ -435,6 +435,7 @@ where
                             // the contents of the new one.
                             stream.ldap = new_stream.ldap;
                             stream.rx = new_stream.rx;
+                            stream.msgid = new_stream.msgid;
                             continue 'ent;
                         }
                     }
